@@ -329,9 +329,14 @@ pub fn cmd_e2e(args: &Args) -> J {
     let mut distinct = std::collections::BTreeSet::new();
     let only_case = args.opts.get("case").and_then(|c| c.parse::<u64>().ok());
     let mut evaluated = 0u64;
+    let started = std::time::Instant::now();
+    let time_limit = args.num("time-limit", 100_000);
     for case in 0..cases {
         if only_case.is_some_and(|c| c != case) {
             continue;
+        }
+        if started.elapsed().as_secs() > time_limit || divergences.len() >= 8 {
+            break;
         }
         let family = families[(case as usize) % families.len()].clone();
         let n_txs = if family == "corpus" {
@@ -625,7 +630,12 @@ pub fn cmd_sched_conf(args: &Args) -> J {
     let mut oracle_div = Vec::new();
     let mut site_hist: BTreeMap<&'static str, u64> = BTreeMap::new();
     let mut samples = Vec::new();
+    let started = std::time::Instant::now();
+    let time_limit = args.num("time-limit", 100_000);
     for case in 0..cases {
+        if started.elapsed().as_secs() > time_limit || stalls.len() > 5 {
+            break;
+        }
         let n_txs = 2 + case_rng(seed ^ 31, "conf", case).below(max_txs - 1);
         let cs = CaseSpec { family: "conf".to_owned(), case, n_txs };
         let block = make_block(seed, &cs);
